@@ -236,9 +236,63 @@ static void c14a(void) {
         }
 }
 
+/* large filters with block counts that are not powers of two, many sequential and spread keys: the block index is a multiply-shift of the
+ * UPPER 32 hash bits only, which no small filter can distinguish from other plausible formulas; and NaN payloads hash as their bytes */
+static void c20_large(void) {
+    mc_stage("bloom.large-filters.non-power-of-two-blocks");
+    static const uint32_t NB[] = { 3, 5, 1000, 4097, 100001 };
+    for (int bi = 0; bi < 5; bi++) for (int fam = 0; fam < 3; fam++) {
+        if (!mc_next()) continue;
+        uint32_t nb = NB[bi]; size_t bytes = (size_t)nb * 32; int nkeys = nb < 100 ? 200000 : 400000;
+        mc_desc("bloom:large;blocks=%u;keys=%d;family=%d", nb, nkeys, fam); mc_feature("bloom"); mc_case_key(mc_mix(0x205, ((uint64_t)bi << 8) | (uint64_t)fam)); mc_nontrivial(); mc_budget_ms(60000);
+        carquet_bloom_filter_t* f = carquet_bloom_filter_create(bytes); if (!f) { mc_fail("bloom.large.create-failed", "%zu bytes", bytes); continue; }
+        if (carquet_bloom_filter_num_blocks(f) != nb) { mc_count("bloom.large.size-rounded", 1); nb = (uint32_t)carquet_bloom_filter_num_blocks(f); bytes = (size_t)nb * 32; }
+        uint8_t* refbits = calloc(1, bytes); int64_t firstbad = -1;
+        for (int k = 0; k < nkeys; k++) { int64_t key = fam == 0 ? k : fam == 1 ? (int64_t)k * 6956284205LL + 449628179 : (int64_t)((uint64_t)k * 0x9E3779B97F4A7C15ull);
+            if (fam == 1 && (k & 1)) { int32_t k32 = (int32_t)key; carquet_bloom_filter_insert_i32(f, k32); ref_sbbf_insert(refbits, nb, ref_xxh64(&k32, 4, 0)); } else { carquet_bloom_filter_insert_i64(f, key); ref_sbbf_insert(refbits, nb, ref_xxh64(&key, 8, 0)); } }
+        if (memcmp(carquet_bloom_filter_data(f), refbits, bytes)) { size_t d = 0; const uint8_t* g = carquet_bloom_filter_data(f); while (g[d] == refbits[d]) d++; mc_fail("bloom.bits-differ-from-parquet-sbbf.large-filter", "blocks=%u: first differing byte %zu (block %zu): %02x, Parquet algorithm %02x", nb, d, d / 32, g[d], refbits[d]); }
+        /* a filter built by the Parquet algorithm, loaded: every inserted key must be reported present */
+        carquet_bloom_filter_t* g2 = carquet_bloom_filter_from_data(refbits, bytes);
+        if (g2) { for (int k = 0; k < nkeys && firstbad < 0; k++) { int64_t key = fam == 0 ? k : fam == 1 ? (int64_t)k * 6956284205LL + 449628179 : (int64_t)((uint64_t)k * 0x9E3779B97F4A7C15ull); bool in = (fam == 1 && (k & 1)) ? carquet_bloom_filter_check_i32(g2, (int32_t)key) : carquet_bloom_filter_check_i64(g2, key); if (!in) firstbad = k; }
+            if (firstbad >= 0) mc_fail("bloom.false-negative.large-filter", "blocks=%u: key #%lld is in the reference-built filter but reported absent", nb, (long long)firstbad); carquet_bloom_filter_destroy(g2); }
+        free(refbits); carquet_bloom_filter_destroy(f);
+    }
+    mc_stage("bloom.float-bit-patterns");
+    { static const uint32_t FB[] = { 0x7fc00000u, 0xffc00000u, 0x7fc00001u, 0x7fa00000u, 0xffffffffu, 0x7f800001u, 0x00000000u, 0x80000000u, 0x7f800000u, 0xff800000u, 0x00000001u, 0x3f800000u };
+      static const uint64_t DB[] = { 0x7ff8000000000000ull, 0xfff8000000000000ull, 0x7ff8000000000123ull, 0x7ff4000000000000ull, 0xffffffffffffffffull, 0x7ff0000000000001ull, 0, 0x8000000000000000ull, 0x7ff0000000000000ull, 0xfff0000000000000ull, 1, 0x3ff0000000000000ull };
+      for (int i = 0; i < 12; i++) for (int dbl = 0; dbl < 2; dbl++) for (int nbi = 0; nbi < 2; nbi++) {
+          if (!mc_next()) continue;
+          uint32_t nb = nbi ? 7 : 1; mc_desc("bloom:float-bits;%s=%llx;blocks=%u", dbl ? "double" : "float", dbl ? (unsigned long long)DB[i] : (unsigned long long)FB[i], nb); mc_feature("bloom"); mc_case_key(mc_mix(0x206, ((uint64_t)i << 8) | ((uint64_t)dbl << 4) | (uint64_t)nbi)); mc_nontrivial();
+          carquet_bloom_filter_t* f = carquet_bloom_filter_create((size_t)nb * 32); if (!f) continue; uint8_t refbits[7 * 32]; memset(refbits, 0, sizeof refbits); bool present;
+          if (dbl) { double dv; memcpy(&dv, &DB[i], 8); carquet_bloom_filter_insert_double(f, dv); ref_sbbf_insert(refbits, nb, ref_xxh64(&DB[i], 8, 0)); present = carquet_bloom_filter_check_double(f, dv); }
+          else { float fv; memcpy(&fv, &FB[i], 4); carquet_bloom_filter_insert_float(f, fv); ref_sbbf_insert(refbits, nb, ref_xxh64(&FB[i], 4, 0)); present = carquet_bloom_filter_check_float(f, fv); }
+          if (!present) mc_fail("bloom.false-negative.float-bit-pattern", "the value just inserted is reported absent");
+          if (memcmp(carquet_bloom_filter_data(f), refbits, (size_t)nb * 32)) mc_fail("bloom.bits-differ-from-parquet-sbbf.float-bit-pattern", "the bits set are not those of XXH64 over the value's plain encoding");
+          carquet_bloom_filter_destroy(f);
+      } }
+}
+
+/* lengths at and beyond 64 KiB / 1 MiB (where an implementation may switch kernels) */
+static void c14a_large(void) {
+    mc_stage("crc32.large-lengths");
+    static const size_t LN[] = { 8191, 8192, 8193, 65535, 65536, 65537, 65599, 131072, 131073, (1u << 20) - 1, 1u << 20, (1u << 20) + 1, 3000017 };
+    static uint8_t* big; if (!big) big = malloc(3000017 + 64);
+    for (int li = 0; li < 13; li++) for (int pat = 0; pat < 3; pat++) for (int al = 0; al < 3; al++) {
+        if (!mc_next()) continue;
+        size_t n = LN[li]; uint8_t* p = big + al * 5; uint32_t x = 99u + (uint32_t)pat;
+        for (size_t i = 0; i < n; i++) { if (pat == 0) p[i] = 0; else if (pat == 1) p[i] = 0xff; else { x = x * 1664525u + 1013904223u; p[i] = (uint8_t)(x >> 24); } }
+        mc_desc("crc32:large;n=%zu;pat=%d;align=%d", n, pat, al * 5); mc_feature("crc32"); mc_case_key(mc_mix(0x143, ((uint64_t)li << 16) | ((uint64_t)pat << 8) | (uint64_t)al)); mc_nontrivial();
+        uint32_t want = (uint32_t)crc32(0L, p, (uInt)n), got = carquet_crc32(p, n);
+        if (got != want) mc_fail("crc32.value.len>=64KiB", "n=%zu pat=%d align=%d got=%08x want=%08x", n, pat, al * 5, got, want);
+        static const size_t CUT[] = { 0, 1, 7, 4096, 65535, 65536 };
+        for (int ci = 0; ci < 6; ci++) { size_t k = CUT[ci] <= n ? CUT[ci] : n; uint32_t c2 = carquet_crc32_update(carquet_crc32(p, k), p + k, n - k); if (c2 != want) { mc_fail("crc32.update-composition.large", "n=%zu split=%zu: update gives %08x, whole %08x", n, k, c2, want); break; }
+            k = n - k; c2 = carquet_crc32_update(carquet_crc32(p, k), p + k, n - k); if (c2 != want) { mc_fail("crc32.update-composition.large", "n=%zu split=%zu: update gives %08x, whole %08x", n, k, c2, want); break; } }
+    }
+}
+
 static void enumerate(void) {
     mc_arena_init(&A, 8192);
-    if (!strcmp(mc_mode(), "c14a")) { c14a(); return; }
+    if (!strcmp(mc_mode(), "c14a")) { c14a(); c14a_large(); return; }
     mc_rule("C20: XXH64 vs a reference written from the XXH64 specification: every length 0..100 (300 thorough) x {zero, ones, every single-bit message, tagged} x 5 seeds x alignment 0..7 (guard-paged). "
             "Bloom filter: creation sizes (rounding, zero, all-absent), every subset of a 12-value pool per type x filter sizes {1,2,3,8} blocks: members probe true, bit array identical to the Parquet split-block "
             "algorithm (block = ((h>>32)*blocks)>>32, salted bits from the low word, XXH64 seed 0 of the plain encoding), write->read->same, merge contains the union; raw-hash block selection over 4096 spread hashes x 6 sizes. "
@@ -246,5 +300,6 @@ static void enumerate(void) {
     mc_assume("ref_xxh64 / ref_sbbf follow the published XXH64 and Parquet BloomFilter specifications; checked against published XXH64 vectors by bin/selftest");
     c20_xxh();
     c20_bloom();
+    c20_large();
 }
 int main(int argc, char** argv) { return mc_main(argc, argv, "hash", enumerate); }
